@@ -40,6 +40,12 @@
     trace_changes_nothing map_text_changes_only_selected_text map_text_preserves_wellnested
     sanitizer_wellnested translator_wellnested
     apply_leaves_origin apply_appends_one_link history_keeps_chains
+    lazy_trace_semantics trace_chain_wellnested lazy_raw_chain_wellnested
+    lazy_reader_injects_current_selection lazy_after_adjacent_selections stagewise_in_lazy_class
+    apply_transformer_leaves_origins apply_transformer_concatenates history_mixed_keeps_chains
+    apply_transformer_runs_in_sequence attr_callable_changes_only_selected substitute_map_are_map_text
+    emptytag_wellnested whitespace_filter_wellnested doctype_inserter_wellnested
+    ns_flattener_wellnested ns_flattener_wellnested_partial ns_flattener_wellnested_ns_partial
 -/
 import Genshi.Lemmas.TfSegs2
 import Genshi.Lemmas.TfChains
@@ -48,6 +54,12 @@ import Genshi.Lemmas.TfFillSpec
 import Genshi.Lemmas.TfLazyDiv
 import Genshi.Lemmas.TfLazyAgree
 import Genshi.Lemmas.TfOther
+import Genshi.Lemmas.TfTrace
+import Genshi.Lemmas.TfTraceInv
+import Genshi.Lemmas.TfTraceSub
+import Genshi.Lemmas.TfDerive
+import Genshi.Lemmas.TfSerial
+import Genshi.Lemmas.TfSerialNs
 namespace Genshi.Props.C20
 open Genshi Genshi.Tf
 
@@ -431,6 +443,62 @@ theorem history_keeps_chains {α : Type} : ∀ (ds : List (Nat × α)) (h : List
 example : history [[0]] [(0, 1), (0, 2), (1, 3)] =
     [[[0], [0, 1]], [[0], [0, 1], [0, 2]], [[0], [0, 1], [0, 2], [0, 1, 3]]] := by decide
 
+/-! ### `Transformer.apply(Transformer)`: chain concatenation -/
+
+/-- Deriving by `t_k.apply(t_j)` leaves every transformer built before — the origin `t_k` and the
+    argument `t_j` included — as it was. -/
+theorem apply_transformer_leaves_origins {α : Type} (h : List (List α)) (k j i : Nat) (hi : i < h.length) :
+    (deriveCat h k j)[i]? = h[i]? := Genshi.Tf.apply_transformer_leaves_origins h k j i hi
+
+/-- … and the new transformer's chain is the origin's chain followed by ALL links of the argument, in
+    their order. -/
+theorem apply_transformer_concatenates {α : Type} (h : List (List α)) (k j : Nat) :
+    (deriveCat h k j)[h.length]? = some (h.getD k [] ++ h.getD j []) ∧
+      (deriveCat h k j).length = h.length + 1 := Genshi.Tf.apply_transformer_concatenates h k j
+
+/-- Over a whole history mixing operation methods and `apply(Transformer)`: nothing built before is
+    ever changed. -/
+theorem history_mixed_keeps_chains {α : Type} (ds : List (DStep α)) (h : List (List α)) (snap : List (List α))
+    (hm : snap ∈ historyD h ds) : snap.take h.length = h := historyD_keeps_chains ds h snap hm
+
+/-- The transformer made by `t_k.apply(t_j)` behaves like `t_k` followed by the links of `t_j` applied
+    to the MARKED output of `t_k` and the buffers it left. -/
+theorem apply_transformer_runs_in_sequence (h : List (List Op)) (k j : Nat) (bufs : Bufs) (s : MStream) :
+    ∀ c, (deriveCat h k j)[h.length]? = some c →
+      runChain c bufs s = (runChain (h.getD k []) bufs s).bind fun r => runChain (h.getD j []) r.2 r.1 :=
+  Genshi.Tf.apply_transformer_runs_in_sequence h k j bufs s
+
+example : historyD [[0]] [.one 0 1, .one 0 2, .cat 1 2] =
+    [[[0], [0, 1]], [[0], [0, 1], [0, 2]], [[0], [0, 1], [0, 2], [0, 1, 0, 2]]] := by decide
+
+/-- attr(name, f) for ANY callable `f(name, event)`: the stream keeps its length and its marks; only an
+    ENTER-marked START event changes, and only by the attribute `name` being set to `f`'s value or
+    deleted when `f` returns `None`. -/
+theorem attr_callable_changes_only_selected (n : QName) (f : QName → AttrList → Option Str) (s : MStream) :
+    setAttrFn n f s = s.map (attrFnEv n f) ∧
+    (∀ p : MItem, (attrFnEv n f p).1 = p.1) ∧
+    (∀ (m : Option Mark) (x : MEv), m ≠ some .enter → attrFnEv n f (m, x) = (m, x)) ∧
+    (∀ (m : Option Mark) (x : MEv), (∀ t a, x ≠ .ev (.start t a)) → attrFnEv n f (m, x) = (m, x)) ∧
+    (∀ t a, attrFnEv n f (some .enter, .ev (.start t a)) =
+        (some .enter, .ev (.start t (match f t a with
+          | none => attrsSub a [n]
+          | some w => attrsSet a n w)))) := Genshi.Tf.attr_callable_changes_only_selected n f s
+
+example : setAttrFn (qn 'k') (fun t _ => some t.loc)
+    [(some .enter, .ev (.start (qn 'a') [])), (some .exit, .ev (.end_ (qn 'a')))] =
+    [(some .enter, .ev (.start (qn 'a') [(qn 'k', ['a'])])), (some .exit, .ev (.end_ (qn 'a')))] := by decide
+
+/-- substitute() and map(f, TEXT) / apply(user function) as driven are instances of `map(f, TEXT)` for a
+    function on text data: `map_text_changes_only_selected_text` and `map_text_preserves_wellnested` speak
+    about them. -/
+theorem substitute_map_are_map_text (p r : Str) (n : Nat) (s : MStream) :
+    substitute p r n s = mapText (fun t sf => (subst p r n t, sf)) s ∧
+    mapBang false s = mapText (fun t sf => (bang t, sf)) s :=
+  ⟨substitute_is_map_text p r n s, map_bang_text_is_map_text s⟩
+
+example : substitute ['a'] ['b'] 0 [(some .outside, .ev (.text ['a', 'x', 'a'] false)), (none, .ev (.text ['a'] false))] =
+    [(some .outside, .ev (.text ['b', 'x', 'b'] false)), (none, .ev (.text ['a'] false))] := by decide
+
 /-! ## the chain as the code runs it: lazily interleaved links (`Model/TfLazy.lean`) -/
 
 /-- The lazily evaluated chain (`runLazy`: every link a transducer, items pushed through the links
@@ -496,15 +564,133 @@ theorem buffer_two_writers_ill_nested :
       [.start (qn 'r') [], .start (qn 'a') [], .end_ (qn 'a'), .end_ (qn 'r')] = some out ∧ ¬ WellNested out :=
   ⟨[.start (qn 'a') [], .end_ (qn 'a'), .end_ (qn 'r')], by decide, by decide⟩
 
+/-! ## the lazily evaluated chain, link by link (`Model/TfTrace.lean`)
+
+  Writer-then-reader chains without a barrier (`copy(b) … after(b)`: the documented usage) are not
+  `stagewise`: the reader sees the buffer as it is at the moment of the injection, not its final
+  content.  Their compositional reading is the trace semantics: what travels from one link to the
+  next is the list of items yielded INTERLEAVED with the buffer effects in the order of time. -/
+
+/-- The lazily evaluated chain (`runLazy`, the push pipeline, any fuel) equals its link-by-link
+    reading `runTrace` — same marked stream, same buffers, failure exactly when it fails — for EVERY
+    chain in which, between two `buffer()` barriers, no link writes a buffer that it or a link before
+    it reads (`lazyRaw`: reads come after writes; this contains every `stagewise` chain and every
+    writer-then-reader chain, and excludes exactly the feedback finding). -/
+theorem lazy_trace_semantics (F : Nat) (ops : List Op) (b : BufF) (s : MStream) (h : lazyRaw ops = true) :
+    (runLazy F ops b s).toOption = runTrace ops b s := lazy_trace F ops b s h
+
+/-- non-vacuity: `Transformer('a').copy(b).after(b)` on `<r><a/></r>` is not `stagewise`, reads come
+    after writes, and the trace semantics gives `<r><a/><a/></r>` (the copy of THIS selection). -/
+example :
+    stagewise [] [] [.select [.none, .hit, .none], .copy 0 false, .after (.buf 0)] = false ∧
+    lazyRaw [.select [.none, .hit, .none], .copy 0 false, .after (.buf 0)] = true ∧
+    (runTrace [.select [.none, .hit, .none], .copy 0 false, .after (.buf 0)] (fun _ => [])
+        (markAll [.start (qn 'r') [], .start (qn 'a') [], .end_ (qn 'a'), .end_ (qn 'r')])).map (fun r => unmark r.1) =
+      some [.start (qn 'r') [], .start (qn 'a') [], .end_ (qn 'a'), .start (qn 'a') [], .end_ (qn 'a'),
+        .end_ (qn 'r')] := by decide
+
+/-
+  `chain_wellnested` for writer-then-reader chains without a barrier (lazily read buffers).
+
+  Invariant, link by link over the trace semantics: "well nested; `Good` — or, after `invert()`, free
+  of ENTER/EXIT marks —; EVERY BUFFER HOLDS BALANCED CONTENT WHENEVER AN ITEM IS YIELDED" (`BalAt`),
+  hence at every injection point.  A `copy` / `cut` link yields nothing while a selection is open
+  and its buffer incomplete (`copy_balAt`, `cut_balAt`: on a `Good` input the buffer, completed by
+  what the rest of the current selection will still append, is balanced); a link that writes nothing
+  yields only in answer to an item of the link before it (`linkU_balAt`); what an injector that reads
+  a buffer lazily yields is its loop with a content that varies from injection to injection, each one
+  balanced (`run_link` / `prepend_link` / `append_link` + `runGoL_good`, `runGoL_balance`,
+  `runGoL_balance_any`, …).
+
+  Hypotheses: `Admissible true ops` — exactly the hypothesis of `chain_wellnested` (the documented
+  precondition after `invert()`, balanced literal contents, `FOk` filters); `OneWriter [] ops` — between
+  two `buffer()` barriers a buffer has at most one writer (the negation is finding
+  C20-buffer-two-writers); `lazyRaw ops` — no link writes a buffer it or an earlier link of the segment
+  reads (the negation is finding C20-buffer-feedback, or a reader in front of its writer);
+  `traceSelOk` — the recorded `Path.test()` results fit (re-checked by the driver on every run, like
+  `chainSelOk`).  Every `stagewise` chain satisfies the two buffer hypotheses.
+-/
+theorem trace_chain_wellnested (ops : List Op) (s : Stream) (hs : WellNested s)
+    (hadm : Admissible true ops) (hone : OneWriter [] ops)
+    (hsel : traceSelOk (segs ops) (fun _ => []) (markAll s) = true)
+    (out : MStream) (b : BufF) (h : runTrace ops (fun _ => []) (markAll s) = some (out, b)) :
+    WellNested (unmark out) :=
+  Genshi.Tf.trace_chain_wellnested ops s hs (admSegs_admissible ops hadm hone) hsel out b h
+
+/-- … for the chain as the code runs it (the push pipeline, any fuel). -/
+theorem lazy_raw_chain_wellnested (F : Nat) (ops : List Op) (s : Stream) (hs : WellNested s)
+    (hraw : lazyRaw ops = true) (hadm : Admissible true ops) (hone : OneWriter [] ops)
+    (hsel : traceSelOk (segs ops) (fun _ => []) (markAll s) = true)
+    (out : MStream) (b : BufF) (h : runLazy F ops (fun _ => []) (markAll s) = .ok (out, b)) :
+    WellNested (unmark out) := by
+  have ht := lazy_trace F ops (fun _ => []) (markAll s) hraw
+  rw [h] at ht
+  exact trace_chain_wellnested ops s hs hadm hone hsel out b ht.symm
+
+/-- The new nesting theorem contains `lazy_chain_wellnested`: every `stagewise` chain satisfies both
+    buffer hypotheses (reads after writes, one writer between two barriers). -/
+theorem stagewise_in_lazy_class (ops : List Op) (h : stagewise [] [] ops = true) :
+    lazyRaw ops = true ∧ OneWriter [] ops := Genshi.Tf.stagewise_in_lazy_class ops h
+
+/-- non-vacuity: `Transformer('a').copy(b).after(b)`, the documented
+    `Transformer('a').copy(b).end().select('c').prepend(b)` (no `buffer()` barrier), and a buffer read
+    lazily after `invert()` are inside the hypotheses; the second one on `<r><a/><c/></r>` gives
+    `<r><a/><c><a/></c></r>`. -/
+example :
+    (Admissible true [.select [.none, .hit, .none], .copy 0 false, .after (.buf 0)] ∧
+      OneWriter [] [.select [.none, .hit, .none], .copy 0 false, .after (.buf 0)]) ∧
+    (Admissible true [.select [.none, .hit, .none], .cut 0 true, .invert, .before (.buf 0)] ∧
+      OneWriter [] [.select [.none, .hit, .none], .cut 0 true, .invert, .before (.buf 0)]) ∧
+    (Admissible true [.select [.none, .hit, .none, .none], .copy 0 false, .endSel,
+        .select [.none, .none, .none, .hit, .none, .none], .prepend (.buf 0)] ∧
+      OneWriter [] [.select [.none, .hit, .none, .none], .copy 0 false, .endSel,
+        .select [.none, .none, .none, .hit, .none, .none], .prepend (.buf 0)]) ∧
+    lazyRaw [.select [.none, .hit, .none, .none], .copy 0 false, .endSel,
+      .select [.none, .none, .none, .hit, .none, .none], .prepend (.buf 0)] = true ∧
+    traceSelOk (segs [.select [.none, .hit, .none, .none], .copy 0 false, .endSel,
+      .select [.none, .none, .none, .hit, .none, .none], .prepend (.buf 0)]) (fun _ => [])
+      (markAll [.start (qn 'r') [], .start (qn 'a') [], .end_ (qn 'a'), .start (qn 'c') [], .end_ (qn 'c'),
+        .end_ (qn 'r')]) = true ∧
+    lazyOut 0 [.select [.none, .hit, .none, .none], .copy 0 false, .endSel,
+      .select [.none, .none, .none, .hit, .none, .none], .prepend (.buf 0)]
+      [.start (qn 'r') [], .start (qn 'a') [], .end_ (qn 'a'), .start (qn 'c') [], .end_ (qn 'c'), .end_ (qn 'r')] =
+    some [.start (qn 'r') [], .start (qn 'a') [], .end_ (qn 'a'), .start (qn 'c') [], .start (qn 'a') [],
+      .end_ (qn 'a'), .end_ (qn 'c'), .end_ (qn 'r')] := by
+  refine ⟨?_, ?_, ?_, by decide, by decide, by decide⟩
+  · simp [Admissible, Op.OkGood, Op.next, Content.Ok, OneWriter, wrOp]
+  · simp [Admissible, Op.OkGood, Op.OkDirty, Op.next, Content.Ok, OneWriter, wrOp]
+  · simp [Admissible, Op.OkGood, Op.next, Content.Ok, OneWriter, wrOp]
+
+/-- What a lazily read buffer holds at an injection: `Transformer('r/text()|b/text()').copy(b).after(b)` on
+    `<r>t<b>u</b></r>` puts a copy of EACH selection behind it (`t t`, `u u`) — the reader runs interleaved
+    with the writer — whereas the stage-wise reading of the same chain would inject the final content of
+    the buffer (`t u`, `u u`): the chain is not `stagewise`, the trace semantics is its compositional reading. -/
+theorem lazy_reader_injects_current_selection :
+    lazyOut 0 [.select [.none, .hit, .none, .hit, .none, .none], .copy 0 false, .after (.buf 0)]
+      [.start (qn 'r') [], .text ['t'] false, .start (qn 'b') [], .text ['u'] false, .end_ (qn 'b'), .end_ (qn 'r')] =
+      some [.start (qn 'r') [], .text ['t'] false, .text ['t'] false, .start (qn 'b') [], .text ['u'] false,
+        .text ['u'] false, .end_ (qn 'b'), .end_ (qn 'r')] ∧
+    transform [.select [.none, .hit, .none, .hit, .none, .none], .copy 0 false, .after (.buf 0)]
+      [.start (qn 'r') [], .text ['t'] false, .start (qn 'b') [], .text ['u'] false, .end_ (qn 'b'), .end_ (qn 'r')] =
+      some [.start (qn 'r') [], .text ['t'] false, .text ['u'] false, .start (qn 'b') [], .text ['u'] false,
+        .text ['u'] false, .end_ (qn 'b'), .end_ (qn 'r')] := by decide
+
+/-- … with one quirk (bug-compatible, tied by the stream `chains-lazy`): a selection that is DIRECTLY followed
+    by another selection is closed only when the first item of the following one arrives, and the writer hands
+    that item on after it has copied the whole following selection — so `after(b)` injects the FOLLOWING
+    selection there.  `<r>t<a/></r>`, text and element selected: `t` is followed by `<a/>`, not by `t`. -/
+theorem lazy_after_adjacent_selections :
+    lazyOut 0 [.select [.none, .hit, .hit, .none], .copy 0 false, .after (.buf 0)]
+      [.start (qn 'r') [], .text ['t'] false, .start (qn 'a') [], .end_ (qn 'a'), .end_ (qn 'r')] =
+      some [.start (qn 'r') [], .text ['t'] false, .start (qn 'a') [], .end_ (qn 'a'), .start (qn 'a') [],
+        .end_ (qn 'a'), .start (qn 'a') [], .end_ (qn 'a'), .end_ (qn 'r')] := by decide
+
 /-! ## the other built-in stream filters: well-nestedness theorems of their owners, re-used
 
   One obligation per filter the property names: the Transformer (`chain_wellnested`,
   `lazy_chain_wellnested`), the HTMLFormFiller (`filler_wellnested_partial`, `filler_confined_partial`), the
-  sanitizer and the translation filter below.  The serializers' internal filters (EmptyTagFilter,
-  NamespaceFlattener, WhitespaceFilter, DocTypeInserter) are stated by C08/C09 on their own event types as
-  "flattening of a forest ↦ an explicit function of the forest" (`Genshi.Output.emptyTag_flattenList`,
-  `filtered_forest`); no `balance` is defined for those types, the oracle checks nesting in → out on the
-  real code (notes/C20.md, open end 1). -/
+  sanitizer and the translation filter below, and the serializers' internal filters (EmptyTagFilter,
+  WhitespaceFilter, DocTypeInserter: full; NamespaceFlattener: `_partial`) further down. -/
 
 /-- HTMLSanitizer (owner: C06, `Genshi.San.wellNested_sanitize`). -/
 theorem sanitizer_wellnested {cfg : Genshi.San.Cfg} {s o : Stream} (hs : WellNested s)
@@ -518,6 +704,79 @@ theorem translator_wellnested (cfg : Genshi.I18n.Cfg) (cat : Genshi.I18n.Catalog
     WellNested (Genshi.I18n.tTags (Genshi.I18n.flattenNodes ns)) ∧
     WellNested (Genshi.I18n.tTags (Genshi.I18n.trList cfg cat ctx tt ta 0 (Genshi.I18n.flattenNodes ns))) :=
   Genshi.I18n.translate_wellNested cfg cat ctx tt ta ns h
+
+/-! ### the serializers' internal filters, over the shared `Event` vocabulary
+
+  `Genshi.Output` models them on its own event types (`QEv` before, `FEv` after the namespace
+  flattener; `EMPTY` is a kind of its own).  `toStreamQ` / `toStreamF` (`Lemmas/TfSerial.lean`) read
+  such a stream back as a `Stream` of the shared vocabulary — an `EMPTY` event is a START followed by
+  its END, a flattened name `n` is the `QName` without namespace — so that `WellNested` / `balance`
+  speak about them. -/
+
+open Genshi.Output Genshi.Tf.Serial in
+/-- EmptyTagFilter: every well-nested stream (not only a flattened forest) comes out well nested;
+    more precisely the output has the balance of the input. -/
+theorem emptytag_wellnested (s : Stream) (h : WellNested s) :
+    WellNested (toStreamQ (emptyTag none s)) ∧ balance [] (toStreamQ (emptyTag none s)) = balance [] s :=
+  ⟨Genshi.Tf.Serial.emptytag_wellnested s h, emptytag_balance_eq s h⟩
+
+open Genshi.Output Genshi.Tf.Serial in
+/-- WhitespaceFilter, for every normalisation function, configuration, state and input: every event
+    that is not a TEXT event is passed on unchanged and in order, so the balance is that of the input. -/
+theorem whitespace_filter_wellnested (norm : Bool → Str → Str) (cfg : WsCfg) (st : WsSt) (es : List QEv) :
+    (WellNested (toStreamQ (wsFilterG norm cfg st es)) ↔ WellNested (toStreamQ es)) ∧
+    (wsFilterG norm cfg st es).filter notText = es.filter notText :=
+  ⟨Genshi.Tf.Serial.whitespace_filter_wellnested norm cfg st es, whitespace_filter_skeleton norm cfg es st⟩
+
+open Genshi.Output Genshi.Tf.Serial in
+/-- DocTypeInserter inserts one DOCTYPE event and nothing else. -/
+theorem doctype_inserter_wellnested (d : Str × Option Str × Option Str) (es : List FEv) :
+    WellNested (toStreamF (docTypeInsert d es)) ↔ WellNested (toStreamF es) :=
+  doctype_inserter_wellnested_iff d es
+
+open Genshi.Tf.Serial in
+/-- NamespaceFlattener, full strength, on C02's total model of the filter (`Genshi.Xml.flatten`,
+    `Model/XmlFlatten.lean`: genshi/output.py after the repair "NamespaceFlattener keeps track of which
+    prefix is bound to which URI"; any prefix table, any number of namespaces, START_NS / END_NS events
+    anywhere): the name written for an END is the name written for its START (the filter keeps the open
+    elements on a stack), so every well-nested stream comes out well nested — alone, and behind the
+    EmptyTagFilter on every well-nested stream of the shared vocabulary. -/
+theorem ns_flattener_wellnested (pref : List (Str × Str)) :
+    (∀ s : List Genshi.Xml.XEv, WellNested (toStreamX s) → WellNested (toStreamXF (Genshi.Xml.flatten pref s))) ∧
+    (∀ s : Stream, WellNested s → WellNested (toStreamXF (Genshi.Xml.flatten pref (Genshi.Xml.emptyTag s)))) :=
+  ⟨fun s h => Genshi.Tf.Serial.ns_flattener_wellnested pref s h,
+   fun s h => emptytag_ns_flattener_wellnested pref s h⟩
+
+/-
+  The same for C08/C09's model of the filter chain (`Genshi.Output.filtered`, whose flattener
+  `Output.flatten` is defined on a "lite" domain only and answers `none` elsewhere).  Full statement:
+  `WellNested s → filtered m o s = some out → WellNested (toStreamF out)` for every stream.  Proved
+  (`_partial`): on the domains of the owners' theorems (`filtered_forest`: flattenings of namespace-free
+  forests; `filtered_forestU`: all elements in one namespace `u`; no cache, no whitespace filter, no
+  doctype option) the chain EmptyTagFilter → NamespaceFlattener DELIVERS an output, and it is well nested.
+  Missing: the other streams of the lite domain (explicit START_NS('', u) events) and `cache = true`.
+-/
+open Genshi.Output Genshi.Tf.Serial in
+theorem ns_flattener_wellnested_partial (m : Method) (dropd : Bool) (ns : List Node)
+    (hok : okList ns = true) (hns : forestNsFree ns = true) :
+    ∃ out, filtered m { strip := false, cache := false, doctype := none, dropXmlDecl := dropd }
+        (flattenList ns) = some out ∧ WellNested (toStreamF out) :=
+  Genshi.Tf.Serial.ns_flattener_wellnested_partial m dropd ns hok hns
+
+open Genshi.Output Genshi.Tf.Serial in
+theorem ns_flattener_wellnested_ns_partial (m : Method) (dropd : Bool) (u : Str) (hu : u ≠ xmlNs)
+    (ns : List Node) (hok : okList ns = true) (hns : forestUniformNs u ns = true) :
+    ∃ out, filtered m { strip := false, cache := false, doctype := none, dropXmlDecl := dropd }
+        (flattenList ns) = some out ∧ WellNested (toStreamF out) :=
+  ns_flattener_wellnested_partialU m dropd u hu ns hok hns
+
+open Genshi.Output Genshi.Tf.Serial in
+/-- non-vacuity: `<a>x<b k="v"/><c><b>y</b></c></a>` through the EmptyTagFilter (one EMPTY event) -/
+example :
+    let s : Stream := [.start (qn 'a') [], .text ['x'] false, .start (qn 'b') [(qn 'k', ['v'])], .end_ (qn 'b'),
+      .start (qn 'c') [], .start (qn 'b') [], .text ['y'] false, .end_ (qn 'b'), .end_ (qn 'c'), .end_ (qn 'a')]
+    WellNested s ∧ (emptyTag none s).contains (.empty (qn 'b') [(qn 'k', ['v'])]) = true ∧
+    WellNested (toStreamQ (emptyTag none s)) := by decide
 
 /-! ## the form filler -/
 
